@@ -1,7 +1,7 @@
 from .. import flow
 from ..engines_cache import CacheEngine, POLICIES
 
-ENGINES = [CacheEngine(p, prop="C11") for p in POLICIES]
+ENGINES = [CacheEngine(prop="C11")]
 
 ASSUMPTIONS = [
     "K2 (operation-level) model: every API call is one atomic step; run_maintenance and the janitor's passes are steps that may occur at any point of the sequence. The sentence of C11 about CONCURRENT read-modify-writes is not covered by this model (partial).",
